@@ -182,8 +182,13 @@ def run_mux_family(ctx, prop):
     # seeded random long histories (wrap-arounds, periods 1..50, large payloads) from the harness's generator
     opt = 'demux' if prop == 'C01' else ''
     rnd = harness_gen(ctx, 'mux', 150 if quick else 3000, ctx.seed, 60 if quick else 220, opt=opt)
+    more = []
+    if prop == 'C04':
+        # histories in which the io.Writer fails once, at every Write index: the failing call is C18's, every call after it has to be exact again
+        once = [s for s in harness_gen(ctx, 'muxfault', 6 if quick else 60, ctx.seed, 4) if s['fault']['mode'] in ('once', 'oncefull')]
+        more = [('mux', once, '', monitor)]
     return pipeline(
-        ctx, monitor, 'mux', scs + rnd, opt=opt, drift_fn=mux_drift,
+        ctx, monitor, 'mux', scs + rnd, opt=opt, drift_fn=mux_drift, more=more,
         rule='scenario = muxer history (period + operation list); TLC-generated: one per transition of the Mux.tla state graph, and long behaviours from '
              'TLC simulation (48 operations); random: seeded '
              'generator harness/muxgen.go; non-trivial = at least one packet-producing call; distinct by hash of period+ops',
